@@ -263,6 +263,12 @@ class FoldMixin:
                                                       z3.And(through, z3.Select(FA, res.off + a0.ln + idx(w) * kq + jq) == chain))))
         facts.append(z3.ForAll([kq], z3.Implies(z3.And(kq >= 0, kq < n), through)))
         self.frame_region_write(st.fork(zand(st.pc, n != idx(0), a0.cap > a0.ln)), a0.rid, win_lo)
+        # The summary speaks about the state AFTER the loop ran to completion.  States that left the loop early (a
+        # `return` inside the body) carry path conditions that extend the pre-loop one, so the summary facts are
+        # guarded by a fresh literal that only the post-loop path condition contains -- otherwise "every iteration
+        # reached the end of its body" would be assumed on the early-return paths too and make them vacuous.
+        done = self.fresh("fold@done", z3.BoolSort())
+        st.pc = zand(st.pc, done)
         for f in facts:
             self.assume(st, f)
         M1 = z3.Store(M, a0.rid, H0)
